@@ -60,23 +60,27 @@ def rows_for(name):
     return rows
 
 
-def t1(F, res):
+def t1(F, res, only=None, rule="T1"):
+    """`only` (a set of method names) restricts the rule to those traversals, reported under `rule` (C17 uses it for the
+    traversals that report which keys the IR requires)"""
     fam = tir_family(F)
     rows = rows_for("tir")
     n_impl = 0
     counts = {}
     for tr, ms in SPECS:
         for f in F.fns.values():
-            if f.get("impl_trait") == tr and f.get("name") in ms:
+            if f.get("impl_trait") == tr and f.get("name") in ms and (only is None or f["name"] in only):
                 st = f["impl_self"]
                 if st not in F.adts:
                     continue
                 n_impl += 1
                 counts[tr] = counts.get(tr, 0) + 1
-                res.add(e3.check_impl_method(F, f, st, fam, ms[f["name"]], "T1", rows,
+                res.add(e3.check_impl_method(F, f, st, fam, ms[f["name"]], rule, rows,
                                              method_sem="is_constant" if f["name"] == "is_constant" else None,
                                              family_traits=(APPLY, COMPOSITE, NODE)))
     res.count("traversal impl methods", n_impl)
+    if only is not None:
+        return n_impl
     res.floor("Composite impl methods on ADTs", counts.get(COMPOSITE, 0), 33)
     res.floor("explicit Apply impl methods on ADTs", counts.get(APPLY, 0), 28)
     res.floor("Node impl methods on ADTs", counts.get(NODE, 0), 18)
